@@ -4,7 +4,7 @@ import re
 from .facts import op_local, Slice, place_fields, op_const
 from .lib import copies_of
 
-CRATES = ["cascette_formats", "cascette_crypto"]
+CRATES = ["cascette_formats", "cascette_crypto", "cascette_client_storage"]
 
 EXPLANATION = (
     "Static sibling cross-checks over the MIR of cascette_formats. R1: RootVersion::detect and RootHeader::read each decide 'extended vs "
@@ -294,7 +294,49 @@ def r4_one_id_per_delta(ctx):
     ctx.floor(rule, n, 1, "FileDataId decoding loops reachable from the root block parsers")
 
 
+def r5_clear_only_caches(ctx, krate="cascette_client_storage", file_pat=r"src/resolver\.rs$", floor=2):
+    """'clearing the caches' must not change what resolves. A map field of the resolver is a CACHE when some body looks it up and, on the miss path,
+    fills it (get .. insert in one body): a cleared cache refills itself. A map that is only ever filled by a loader is primary state - clearing it
+    makes every key of the loaded manifest resolve to nothing until the manifest is loaded again."""
+    rule = "C03.R5"
+    ctx.rule(rule, "a method of the resolver that clears map fields clears only fields that some body refills on a miss (get + insert in one body)")
+    from .cachebooks import recv_fields
+    MAPGET = re.compile(r"\b(DashMap|HashMap|BTreeMap)\b.*::(get|get_mut|contains_key)$")
+    MAPINS = re.compile(r"\b(DashMap|HashMap|BTreeMap)\b.*::(insert|entry)$")
+    MAPCLR = re.compile(r"\b(DashMap|HashMap|BTreeMap)\b.*::clear$")
+    bodies = [b for b in ctx.prog.bodies.values() if b.krate == krate and re.search(file_pat, b.file or "")]
+    refill = set()
+    for b in bodies:
+        gets, ins = set(), set()
+        for c in b.calls:
+            if c.bb not in b.live_blocks() or not c.args:
+                continue
+            fs = {f for f in recv_fields(b, c)}
+            if MAPGET.search(c.name):
+                gets |= fs
+            elif MAPINS.search(c.name):
+                ins |= fs
+        refill |= gets & ins
+    n = 0
+    for b in sorted(bodies, key=lambda x: x.id):
+        clears = [(c, recv_fields(b, c)) for c in b.calls if c.bb in b.live_blocks() and c.args and MAPCLR.search(c.name)]
+        if len(clears) < 2:
+            continue        # a method that empties several maps at once: the 'clear caches' role
+        ctx.saw(b)
+        for (c, fs) in clears:
+            for f in sorted(fs):
+                if str(f).startswith("upvar:"):
+                    continue
+                n += 1
+                ctx.check(f in refill, rule, [b.id, "clears", f], "`%s` is refilled on a miss by a lookup path" % f,
+                          "%s clears `%s`, which no lookup refills on a miss (it is only filled by a loader): after the call every key of the loaded manifest "
+                          "resolves to nothing although the manifest is still loaded - clearing caches changes lookup results" % (ctx._stable(b.id), f), c.loc(),
+                          sample={"method": b.id, "field": f, "refillable_fields": sorted(str(x) for x in refill)})
+    ctx.floor(rule, n, floor, "map fields cleared by the resolver's cache-clearing method")
+
+
 def run(ctx):
+    r5_clear_only_caches(ctx)
     r4_one_id_per_delta(ctx)
     r3_merge_advances(ctx)
     r1_layout_predicates(ctx)
